@@ -188,6 +188,67 @@ def w_fields(task):
     return acc
 
 
+def w_histories(task):
+    """histories on burst objects: (a) one Burst object re-used for an edited / another payload (stale per-object caches),
+    (b) the same bytes parsed again after the caller wrote into the buffers the first parse handed out (aliased decoder state)"""
+    acc = Acc()
+    for ti, cc, syncname in task:
+        label, kind, dtname, clsname = TARGETS[ti]
+        dt = DataTypes[dtname]
+        sync = SyncPatterns[syncname]
+        b0, b1, b2 = bases(kind)
+        case = {"kind": label, "colour_code": cc, "sync": syncname}
+        try:
+            # (a1) serialise, replace the PDU's state in place (same object identity), serialise again
+            pdu = kind.build(b0)
+            burst = B.assemble_data_burst(pdu, dt, cc=cc, sync=sync)
+            first = burst.as_bytes()
+            repr(burst)
+            other = kind.build(b1)
+            pdu.__dict__.clear()
+            pdu.__dict__.update(other.__dict__)
+            second = burst.as_bytes()
+            fresh = B.data_burst_bytes(kind.build(b1), dt, cc=cc, sync=sync)
+            if second != fresh:
+                acc.violation(f"reserialised_burst_is_stale_after_payload_edited_in_place:{kind.family}", {**case, "got": second.hex(), "want": fresh.hex()},
+                              "a burst serialised again after its payload PDU was edited in place does not carry the edited payload")
+            # (a2) assign another PDU object, another colour code and sync to the same burst object
+            burst.data = kind.build(b2)
+            cc2 = (cc + 5) % 16
+            sync2 = SyncPatterns[DATA_SYNCS[(DATA_SYNCS.index(syncname) + 1) % 4]]
+            from okdmr.dmrlib.etsi.layer2.pdu.slot_type import SlotType as _ST
+            burst.slot_type = _ST(colour_code=cc2, data_type=dt)
+            burst.sync_or_embedded_signalling = sync2
+            third = burst.as_bytes()
+            fresh3 = B.data_burst_bytes(kind.build(b2), dt, cc=cc2, sync=sync2)
+            if third != fresh3:
+                acc.violation(f"reused_burst_object_serialises_stale_content:{kind.family}", {**case, "got": third.hex(), "want": fresh3.hex()})
+            # (b) parse, write into every buffer the parse handed out, parse the same bytes again
+            p1 = Burst.from_bytes(fresh)
+            want_fields = kind.read(kind.parse(p1.data.as_bits()) if kind.family == "rate_data" else p1.data)
+            for attr in ("info_bits_deinterleaved", "info_bits_original", "voice_bits", "embedded_signalling_bits", "full_bits"):
+                buf = getattr(p1, attr, None)
+                if isinstance(buf, bitarray):
+                    buf.invert()
+            try:
+                db = p1.data.as_bits()
+                db.invert()
+            except Exception:  # noqa: BLE001
+                pass
+            p2 = Burst.from_bytes(fresh)
+            if p2.as_bytes() != fresh:
+                acc.violation(f"second_parse_of_same_bytes_differs_after_caller_wrote_first_result:{kind.family}", {**case, "burst": fresh.hex(), "again": p2.as_bytes().hex()},
+                              "parsing the same 33 bytes again gives another burst once the caller has modified buffers of the first parse")
+            else:
+                got_fields = kind.read(kind.parse(p2.data.as_bits()) if kind.family == "rate_data" else p2.data)
+                if got_fields != want_fields:
+                    acc.violation(f"second_parse_fields_differ_after_caller_wrote_first_result:{kind.family}", case)
+        except Exception as e:  # noqa: BLE001
+            acc.violation(f"exception_burst_history:{kind.family}:" + exc_sig(e), case, repr(e))
+        acc.case(nontrivial=True, calls=9, outcome=dtname, sample=case if len(acc.samples) < 1 else None)
+    return acc
+
+
 FIELD_CASES = {}
 
 
@@ -381,6 +442,15 @@ def run(only=None):
             tasks += [(ti, lo, hi) for lo, hi in par.chunks(len(FIELD_CASES[ti]), 24 if thorough else 6)]
         s.declared = total
         for acc in par.pmap(w_fields, tasks):
+            s.merge(acc)
+        s.done()
+    # 2b. histories on burst objects
+    if not only or "burst_object_histories" in only:
+        s = rep.sub("burst_object_histories", "every payload kind x 4 (cc, sync) pairs: serialise / edit payload in place / serialise again; re-use one burst "
+                                              "object for another payload, colour code and sync; parse / scribble on the parsed buffers / parse the same bytes again")
+        cases = [(ti, (ti * 3 + j * 5) % 16, DATA_SYNCS[(ti + j) % 4]) for ti in range(len(TARGETS)) for j in range(4)]
+        s.declared = len(cases)
+        for acc in par.pmap(w_histories, par.split_list(cases, 64)):
             s.merge(acc)
         s.done()
     # 3. info bits through the codecs
